@@ -357,7 +357,7 @@ class _AbortingServer:
         k = self.n
         self.n += 1
         if k == self.at:
-            return [sx.mkbytes([0x80, f[1], f[2], f[3]] + [sx.byte_of(self.code, i) for i in range(4)])]
+            return [sx.mkbytes([0x80, 0x00, 0x20, 0x00] + [sx.byte_of(self.code, i) for i in range(4)])]
         return resps
 
 
@@ -365,14 +365,29 @@ def client_abort(op, at):
     from refmodels.sdo_server import RefServer
     E = sx.mod("canopen.sdo.exceptions")
     code = sx.fresh_int("code", 0, 0xFFFFFFFF)
-    inner = RefServer("C06c")
+    if op == "block-download":
+        from refmodels.block_server import BlockDownloadServer
+        inner = BlockDownloadServer([127], crc=True, tag="C06c")
+        inner.expect_mux = (0x2000, 0)
+    elif op == "block-upload":
+        from refmodels.block_server import BlockUploadServer
+        inner = BlockUploadServer(list(range(20)), crc=True, size_indicated=True)
+        inner.expect_mux = (0x2000, 0)
+    else:
+        inner = RefServer("C06c")
+        inner.value = list(range(20))
     inner.check = False        # frame legality after an abort is not this property's business
-    inner.value = list(range(20))
     srv = _AbortingServer(inner, at, code)
     rig = ClientRig(srv)
     tag = "C06/client/%s" % op
     try:
-        if op == "upload":
+        if op == "block-download":
+            with rig.client.open(0x2000, 0, "wb", size=20, block_transfer=True) as fp:
+                fp.write(bytes(range(20)))
+        elif op == "block-upload":
+            with rig.client.open(0x2000, 0, "rb", block_transfer=True) as fp:
+                fp.read()
+        elif op == "upload":
             rig.client.upload(0x2000, 0)
         elif op == "download-exp":
             rig.client.download(0x2000, 0, b"\x01\x02")
@@ -411,7 +426,7 @@ def jobs(tier):
             out.append(dict(func="toggle_error", params=dict(direction=d, pre=pre)))
         for k in ("ccs7", "block"):
             out.append(dict(func="unknown_command", params=dict(kind=k, pre=pre)))
-    for op, steps in (("upload", 4), ("download-exp", 1), ("download-seg", 4)):
+    for op, steps in (("upload", 4), ("download-exp", 1), ("download-seg", 4), ("block-download", 5), ("block-upload", 3)):
         for at in range(steps):
             out.append(dict(func="client_abort", params=dict(op=op, at=at)))
     return out
@@ -435,7 +450,7 @@ META = dict(
                       "(members created on demand); abort injected at every step of 3 client transfers",
                 thorough="same with all (length, style) combinations in every history position"),
     outside_bounds=["object dictionaries other than the harness dictionary (the lookup code is uniform in the entries)",
-                    "sub-index != 0 on VAR objects", "refusals in the middle of block transfers"],
+                    "sub-index != 0 on VAR objects", "refusals by the *server under test* in the middle of block transfers (it does not implement them); the client side is covered"],
     assumptions=["abort code for 'no value' as the repo's suite expects (0x060A0023)"],
     stubs=["struct", "bytes/bytearray", "dict displays -> SymDict", "queue", "logging"],
     required_reach=["read-missing-index", "read-missing-sub", "read-wo", "read-no-value", "read-ok",
